@@ -344,29 +344,30 @@ def context_case(ctx, G, R, name, e, sx, scen, caller, ne, reps):
     case = {"program": name, "expr": sx, "context_case": True, "config_context": cfg, "run_context": runc, "update_context": ov,
             "caller": caller, "new_execution": ne}
 
-    box = Box(R)
-    try:
-        def one(expr):
-            o, _ = R.run_free(expr, sched=box.scheduler(cfg), timeout=120, context=dict(runc))
+    def one(mk):
+        # a fresh backend per run (a scheduler that ran a prov=False job keeps a write transaction open on its sqlite file)
+        box = Box(R)
+        try:
+            o, _ = R.run_free(mk(box), sched=box.scheduler(cfg), timeout=120, context=dict(runc))
             return o
+        finally:
+            box.close()
 
-        def wrap(t):
-            if caller == "noprov":
-                t = t.options(prov=False)
-            return t.update_context(dict(ov)) if ov else t
+    def wrap(t):
+        if caller == "noprov":
+            t = t.options(prov=False)
+        return t.update_context(dict(ov)) if ov else t
 
-        if caller == "top":
-            direct = one(R.clone(e))
-            sub = one(subrun(R.clone(e), executor="default", new_execution=ne))
-        elif caller == "noprov":
-            # the sub-scheduler of a prov=False caller gets its own database (as in redun's test_subrun_no_prov)
-            direct = one(wrap(L.direct_of)(quote(R.clone(e))))
-            sub = one(wrap(L.sub_of_cfg)(quote(R.clone(e)), ne, box.config(cfg, second_db=True)))
-        else:
-            direct = one(wrap(L.direct_of)(quote(R.clone(e))))
-            sub = one(wrap(L.sub_of)(quote(R.clone(e)), ne))
-    finally:
-        box.close()
+    if caller == "top":
+        direct = one(lambda box: R.clone(e))
+        sub = one(lambda box: subrun(R.clone(e), executor="default", new_execution=ne))
+    elif caller == "noprov":
+        # the sub-scheduler of a prov=False caller gets its own database (as in redun's test_subrun_no_prov)
+        direct = one(lambda box: wrap(L.direct_of)(quote(R.clone(e))))
+        sub = one(lambda box: wrap(L.sub_of_cfg)(quote(R.clone(e)), ne, box.config(cfg, second_db=True)))
+    else:
+        direct = one(lambda box: wrap(L.direct_of)(quote(R.clone(e))))
+        sub = one(lambda box: wrap(L.sub_of)(quote(R.clone(e)), ne))
     if direct not in outs and not has_unk:
         ctx.mismatch("direct evaluation under a context is not among the model's outcomes", case=case,
                      model=sorted(map(G.show, outs)), impl=G.show(direct), signature="C38-context-direct-differs-from-model")
@@ -391,7 +392,7 @@ def context_case(ctx, G, R, name, e, sx, scen, caller, ne, reps):
 def context_section(ctx, G, R, base):
     rng = ctx.rng
     progs = [(n, e, G.to_sx(e)) for n, e in ctx_corpus().items()]
-    for i in range(ctx.n(8, 60)):
+    for i in range(ctx.n(4, 50)):
         prng = random.Random(base * 5 + i)
         gen = G.Gen(prng, p_err=prng.choice([0.0, 0.0, 0.1]), max_fan=2)
         gen.ctx_heavy = True
@@ -443,7 +444,7 @@ def run(ctx):
     rng = ctx.rng
     progs = [(name, e, G.to_sx(e)) for name, e in corpus().items()]
     base = rng.getrandbits(48)
-    for i in range(ctx.n(20, 55)):
+    for i in range(ctx.n(14, 50)):
         prng = random.Random(base + i)
         gen = G.Gen(prng, p_err=prng.choice([0.0, 0.1, 0.25]), max_fan=3)
         for _ in range(30):
